@@ -189,12 +189,70 @@ fn case_two_phase<G: CurveTag>(bytes: &[u8], col: &mut Collector) -> Result<(), 
     Ok(())
 }
 
+
+/// sequences that cross gate index 2^16: 65 5xx full gates, then a generated tail of single
+/// and paired allocations (first phase only: no proof needed)
+fn case_deep<G: CurveTag>(bytes: &[u8], col: &mut Collector) -> Result<(), Failure> {
+    use crate::program::Sc;
+    use crate::scalars::ScalarSpec;
+    let mut ch = Choices::new(bytes);
+    let lead = 65_520 + ch.below(30);
+    let cfg = GenCfg { max_ops1: 60, max_closures: 0, max_ops2: 0, max_commits: 2, big_gates: 0, max_terms: 3, wide: false };
+    let tail = gen_program(&mut ch, G::CURVE, &cfg);
+    let mut ops: Vec<Op> = Vec::with_capacity(lead + tail.ops.len());
+    for _ in 0..lead {
+        ops.push(Op::AllocMul { l: Sc::C(ScalarSpec::One), r: Sc::C(ScalarSpec::One) });
+    }
+    // the tail refers to its own gates: shift every wire index by `lead`
+    let shift = |lc: &mut Vec<(crate::program::Var, Sc)>| {
+        for (v, _) in lc.iter_mut() {
+            *v = match *v {
+                crate::program::Var::L(i) => crate::program::Var::L(i + lead),
+                crate::program::Var::R(i) => crate::program::Var::R(i + lead),
+                crate::program::Var::O(i) => crate::program::Var::O(i + lead),
+                o => o,
+            };
+        }
+    };
+    for mut op in tail.ops.clone() {
+        match &mut op {
+            Op::Mul { left, right } => {
+                shift(left);
+                shift(right);
+            }
+            Op::Constrain { lc, .. } => shift(lc),
+            _ => {}
+        }
+        ops.push(op);
+    }
+    let mut prog = tail.clone();
+    prog.ops = ops;
+    let (p, v) = phase1_calls::<G>(&prog).map_err(|e| Failure::new("C16:deep-panic", format!("constraint-system construction panicked: {}", e), json!({"lead_gates": lead, "tail": tail.to_json()})))?;
+    // report against the tail only (the lead is 65 5xx identical calls)
+    let small = |mut f: Failure| {
+        f.case = json!({"lead_allocate_multiplier_calls": lead, "tail": tail.to_json()});
+        f
+    };
+    compare(&prog, &p, &v, "prover", "verifier").map_err(small)?;
+    col.class("crosses-gate-index-2^16");
+    if p.iter().any(|c| c.what == "allocate" && c.len_real > 65_536) {
+        col.class("single-allocation-beyond-2^16");
+        col.nontrivial(crate::runner::fp_of(&(tail.fingerprint(), lead)));
+    }
+    col.sample(true, || json!({"lead_allocate_multiplier_calls": lead, "tail": tail.to_json(), "last_calls": p.iter().rev().take(6).map(|c| format!("{}->{:?} len={}", c.what, c.ret, c.len_real)).collect::<Vec<_>>()}));
+    Ok(())
+}
+
 fn dispatch(sub: &str, bytes: &[u8], col: &mut Collector) -> Result<(), Failure> {
     let mut it = sub.split('/');
     let _ = it.next();
     let curve = Curve::from_name(it.next().unwrap_or("")).unwrap_or(Curve::Secq);
-    let two = it.next() == Some("two-phase");
-    with_curve!(curve, G => if two { case_two_phase::<G>(bytes, col) } else { case_phase1::<G>(bytes, col) })
+    let kind = it.next().unwrap_or("");
+    with_curve!(curve, G => match kind {
+        "two-phase" => case_two_phase::<G>(bytes, col),
+        "deep" => case_deep::<G>(bytes, col),
+        _ => case_phase1::<G>(bytes, col),
+    })
 }
 
 pub fn replay(sub: &str, bytes: &[u8], col: &mut Collector) -> Result<(), Failure> {
@@ -217,8 +275,11 @@ pub fn run(tier: &str, seed: u64) -> i32 {
         let sub2 = format!("c16/{}/two-phase", c.name());
         rep.outcome.merge(replay_corpus("C16", &sub2, &|b, col| dispatch(&sub2, b, col)));
         rep.outcome.merge(search(&sub2, seed, n2, 700, &|b, col| dispatch(&sub2, b, col)));
+        let sub3 = format!("c16/{}/deep", c.name());
+        let n3 = super::scale(tier, 16, 160);
+        rep.outcome.merge(crate::runner::search_len(&sub3, seed, n3, 300, 700, &|b, col| dispatch(&sub3, b, col)));
     }
-    for (c, f) in [("odd-run-of-allocate", 0.05), ("allocate-interleaved-with-gates", 0.05), ("allocation-in-phase2", 0.03), ("open-half-gate-at-switch-then-phase2-allocation", 0.01), ("missing-assignment", 0.01), ("long-sequence(>100 calls)", 0.005)] {
+    for (c, f) in [("odd-run-of-allocate", 0.05), ("allocate-interleaved-with-gates", 0.05), ("allocation-in-phase2", 0.03), ("open-half-gate-at-switch-then-phase2-allocation", 0.01), ("missing-assignment", 0.01), ("long-sequence(>100 calls)", 0.005), ("single-allocation-beyond-2^16", 0.0005)] {
         rep.required_classes.push((c.to_string(), f));
     }
     rep.finish()
